@@ -458,6 +458,67 @@ fn alloc_confirmed(rep: &mut Report, c: &Case) -> bool {
     fine
 }
 
+
+/// the lcov model tie is skipped only for what the recorded finding C14-lcov-branch-number-alloc needs:
+/// some BRDA record whose BRANCH field the reader would read as a number in [10^6, 2^32-1] (a vector
+/// of that length on both sides). The fields are scanned the way `parse_lcov` scans them (key, one
+/// byte, line digits, one byte, optional `e`, block digits, one byte, branch digits), at every
+/// occurrence of the key (an over-approximation of "at a line start").
+fn brda_branch_alloc(d: &[u8]) -> bool {
+    let digits = |i: &mut usize| -> Option<u128> {
+        let mut v: u128 = 0;
+        let mut n = 0;
+        while *i < d.len() && d[*i].is_ascii_digit() {
+            v = v.saturating_mul(10).saturating_add((d[*i] - b'0') as u128);
+            *i += 1;
+            n += 1;
+        }
+        if n > 30 { Some(u128::MAX) } else { Some(v) }
+    };
+    let mut p = 0;
+    while p + 4 <= d.len() {
+        if &d[p..p + 4] == b"BRDA" {
+            let mut i = p + 4;
+            while i < d.len() && d[i].is_ascii_uppercase() {
+                i += 1;
+            }
+            i += 1; // the byte that ends the key
+            let _ = digits(&mut i);
+            i += 1;
+            if i < d.len() && d[i] == b'e' {
+                i += 1;
+            }
+            let _ = digits(&mut i);
+            i += 1;
+            if let Some(b) = digits(&mut i) {
+                if (1_000_000..=u32::MAX as u128).contains(&b) {
+                    return true;
+                }
+            }
+        }
+        p += 1;
+    }
+    false
+}
+
+/// boundary numbers in the three numeric fields of a BRDA record (mutation campaign mutM1, P27 P40 P41:
+/// a field read in a wider or narrower type): the record is followed by an ordinary one on line 1 so
+/// that a wrapped line or branch number shows in the result
+fn brda_boundaries() -> Vec<(String, Vec<u8>)> {
+    let mut v = vec![];
+    let mk = |line: &str, block: &str, branch: &str| format!("SF:a\nBRDA:{},{},{},1\nBRDA:1,0,1,-\nDA:1,1\nend_of_record\n", line, block, branch).into_bytes();
+    for l in ["4294967295", "4294967296", "4294967297"] {
+        v.push((format!("BRDA line {}", l), mk(l, "0", "2")));
+    }
+    for b in ["4294967295", "4294967296", "18446744073709551615", "18446744073709551616", "e4294967296", "e18446744073709551616"] {
+        v.push((format!("BRDA block {}", b), mk("7", b, "2")));
+    }
+    for n in ["4294967296", "4294967297", "18446744073709551616"] {
+        v.push((format!("BRDA branch {}", n), mk("7", "0", n)));
+    }
+    v
+}
+
 fn panic_site(o: &str) -> Option<String> {
     // "panic /repo/src/reader.rs:244 message" -> "reader.rs:244"
     let rest = o.strip_prefix("panic ")?;
@@ -488,6 +549,9 @@ pub fn run(rep: &mut Report) {
     cases.push(wit("gcovtext", "witness: lcount without file", b"lcount:1,1\n"));
     cases.push(wit("gcovjson", "witness: not gzip", b"{}"));
     cases.push(wit("jacoco", "witness: eof inside class", b"<report><package name=\"p\"><class name=\"A\">"));
+    for (w, d) in brda_boundaries() {
+        cases.push(Case { kind: "lcov", what: format!("boundary: {}", w), data: d, aux: vec![] });
+    }
     for b in &base {
         cases.push(b.clone());
         cases.extend(derive(&mut rng, b, per_file, exhaustive));
@@ -497,11 +561,12 @@ pub fn run(rep: &mut Report) {
     let mut reqs = vec![];
     let mut idx = vec![];
     for (i, c) in cases.iter().enumerate() {
-        if c.kind == "lcov" && !outs[i].0.is_empty() && !c.data.windows(4).any(|w| w == b"BRDA") {
+        if c.kind == "lcov" && !outs[i].0.is_empty() && !brda_branch_alloc(&c.data) {
             reqs.push(format!("lcov.parse 1 {}", hex(&c.data)));
             idx.push(i);
         }
     }
+    rep.count_n("lcov.tied", reqs.len() as u64);
     let model = run_model(&reqs, &rep.workdir, "c14lcov");
     for (k, &i) in idx.iter().enumerate() {
         let impl_o = if outs[i].0.starts_with("panic") { "panic".to_string() } else { outs[i].0.clone() };
